@@ -179,7 +179,7 @@ type zzShape struct {
 	cred  int // CONNECT: bit0 user name, bit1 password
 	qos   int // PUBLISH: 0..2
 	form  int // PUBACK family / DISCONNECT / AUTH short form
-	nz    int // 1: present scalars are assumed non-zero
+	nz    int // 1: present scalars are assumed non-zero; 2: only values that must not be 0; 3: concrete template values
 	fld   int // index (1-based) of one string field that gets length flen; 0 none
 	flen  int
 	big   int // payload / will payload length override (0 = slen)
@@ -202,6 +202,42 @@ type zzGenState struct {
 	pre  string
 }
 
+// draws: symbolic inputs, or fixed values for concrete templates (conc)
+func (g *zzGenState) dBool(name string) bool {
+	if g.sh.nz == 3 {
+		return true
+	}
+	return zzBool(name)
+}
+func (g *zzGenState) dU8(name string) uint8 {
+	if g.sh.nz == 3 {
+		return 1
+	}
+	return zzU8(name)
+}
+func (g *zzGenState) dU16(name string) uint16 {
+	if g.sh.nz == 3 {
+		return 0x0102
+	}
+	return zzU16(name)
+}
+func (g *zzGenState) dU32(name string) uint32 {
+	if g.sh.nz == 3 {
+		return 0x01020304
+	}
+	return zzU32(name)
+}
+func (g *zzGenState) dBytes(name string, n int) []byte {
+	if g.sh.nz == 3 {
+		b := make([]byte, n)
+		for i := range b {
+			b[i] = byte('a' + i%23)
+		}
+		return b
+	}
+	return zzBytes(name, n)
+}
+
 // content returns n content bytes. Up to 24 bytes all are symbolic; longer
 // contents have 4 symbolic bytes at each end and concrete filler between.
 func (g *zzGenState) content(name string, n int, utf8 bool) []byte {
@@ -215,7 +251,7 @@ func (g *zzGenState) content(name string, n int, utf8 bool) []byte {
 func (g *zzGenState) rawContent(name string, n int, utf8 bool) []byte {
 	var b []byte
 	if n <= 24 {
-		b = zzBytes(name, n)
+		b = g.dBytes(name, n)
 		if utf8 {
 			for i := range b {
 				g.dom = zzAnd(g.dom, zzAnd(b[i] >= 1, b[i] <= 0x7f))
@@ -227,8 +263,8 @@ func (g *zzGenState) rawContent(name string, n int, utf8 bool) []byte {
 	for i := range b {
 		b[i] = byte('a' + i%23)
 	}
-	h := zzBytes(name+".head", 4)
-	t := zzBytes(name+".tail", 4)
+	h := g.dBytes(name+".head", 4)
+	t := g.dBytes(name+".tail", 4)
 	for i := 0; i < 4; i++ {
 		if utf8 {
 			g.dom = zzAnd(g.dom, zzAnd(h[i] >= 1, h[i] <= 0x7f))
@@ -245,21 +281,21 @@ func (g *zzGenState) prop(name string, id byte) zzProp {
 	switch zzPropType(id) {
 	case zzTByte:
 		if zzPropBool(id) {
-			p.u = uint32(zzB2U(zzBool(g.pre + name)))
+			p.u = uint32(zzB2U(g.dBool(g.pre + name)))
 		} else if id == 0x24 {
 			// Maximum QoS: 0 or 1
-			x := zzU8(g.pre + name)
+			x := g.dU8(g.pre + name)
 			g.dom = zzAnd(g.dom, x <= 1)
 			p.u = uint32(x)
 		} else {
-			p.u = uint32(zzU8(g.pre + name))
+			p.u = uint32(g.dU8(g.pre + name))
 		}
 	case zzTU16:
-		p.u = uint32(zzU16(g.pre + name))
+		p.u = uint32(g.dU16(g.pre + name))
 	case zzTU32:
-		p.u = zzU32(g.pre + name)
+		p.u = g.dU32(g.pre + name)
 	case zzTVbi:
-		p.u = zzU32(g.pre + name)
+		p.u = g.dU32(g.pre + name)
 		g.dom = zzAnd(g.dom, zzAnd(p.u >= 1, p.u <= 268435455))
 	case zzTStr:
 		p.s = g.content(name, g.sh.slen, true)
@@ -347,8 +383,8 @@ func zzGen2(sh zzShape, pre string) *zzAbs {
 	case 1:
 		a.protoName = []byte("MQTT")
 		a.protoVer = 5
-		a.keepAlive = zzU16(g.pre + "keepAlive")
-		clean := zzBool(g.pre + "cleanStart")
+		a.keepAlive = g.dU16(g.pre + "keepAlive")
+		clean := g.dBool(g.pre + "cleanStart")
 		a.props = g.props("", 1, sh.mask, sh.nUser, 0)
 		a.clientID = g.content("clientID", sh.slen, true)
 		a.connFlags = byte(zzB2U(clean)) << 1
@@ -365,9 +401,9 @@ func zzGen2(sh zzShape, pre string) *zzAbs {
 				wl = sh.big
 			}
 			a.willPayload = g.content("willPayload", wl, false)
-			wq := zzU8(g.pre + "willQoS")
+			wq := g.dU8(g.pre + "willQoS")
 			g.dom = zzAnd(g.dom, wq <= 2)
-			wr := zzBool(g.pre + "willRetain")
+			wr := g.dBool(g.pre + "willRetain")
 			a.connFlags |= 0x04 | (wq&3)<<3 | byte(zzB2U(wr))<<5
 		}
 		if sh.cred&1 == 1 {
@@ -385,11 +421,11 @@ func zzGen2(sh zzShape, pre string) *zzAbs {
 			}
 		}
 	case 2:
-		a.ackFlags = byte(zzB2U(zzBool(g.pre + "sessionPresent")))
-		a.reason = zzU8(g.pre + "reason")
+		a.ackFlags = byte(zzB2U(g.dBool(g.pre + "sessionPresent")))
+		a.reason = g.dU8(g.pre + "reason")
 		a.props = g.props("", 2, sh.mask, sh.nUser, 0)
 	case 3:
-		dup, ret := zzBool(g.pre+"dup"), zzBool(g.pre+"retain")
+		dup, ret := g.dBool(g.pre+"dup"), g.dBool(g.pre+"retain")
 		a.hflags = byte(zzB2U(dup))<<3 | byte(sh.qos)<<1 | byte(zzB2U(ret))
 		tl := sh.slen
 		if tl < 1 && sh.mask&(1<<5) == 0 {
@@ -397,7 +433,7 @@ func zzGen2(sh zzShape, pre string) *zzAbs {
 		}
 		a.topic = g.content("topic", tl, true)
 		if sh.qos == 1 || sh.qos == 2 {
-			a.pid = zzU16(g.pre + "pid")
+			a.pid = g.dU16(g.pre + "pid")
 			g.dom = zzAnd(g.dom, a.pid != 0)
 		}
 		a.props = g.props("", 3, sh.mask, sh.nUser, sh.nList)
@@ -410,12 +446,12 @@ func zzGen2(sh zzShape, pre string) *zzAbs {
 		if sh.typ == 6 {
 			a.hflags = 2
 		}
-		a.pid = zzU16(g.pre + "pid")
-		a.reason = zzU8(g.pre + "reason")
+		a.pid = g.dU16(g.pre + "pid")
+		a.reason = g.dU8(g.pre + "reason")
 		a.props = g.props("", sh.typ, sh.mask, sh.nUser, 0)
 	case 8:
 		a.hflags = 2
-		a.pid = zzU16(g.pre + "pid")
+		a.pid = g.dU16(g.pre + "pid")
 		a.props = g.props("", 8, sh.mask, sh.nUser, 0)
 		for i := 0; i < sh.nList; i++ {
 			fl := sh.slen
@@ -423,20 +459,20 @@ func zzGen2(sh zzShape, pre string) *zzAbs {
 				fl = 1
 			}
 			a.filters = append(a.filters, g.content("filter"+zzItoa(i), fl, true))
-			o := zzU8(g.pre + "opt" + zzItoa(i))
+			o := g.dU8(g.pre + "opt" + zzItoa(i))
 			// reserved bits 0, QoS != 3, retain handling != 3
 			g.dom = zzAnd(g.dom, zzAnd(o&0xc0 == 0, zzAnd(o&3 != 3, o&0x30 != 0x30)))
 			a.opts = append(a.opts, o)
 		}
 	case 9, 11:
-		a.pid = zzU16(g.pre + "pid")
+		a.pid = g.dU16(g.pre + "pid")
 		a.props = g.props("", sh.typ, sh.mask, sh.nUser, 0)
 		for i := 0; i < sh.nList; i++ {
-			a.codes = append(a.codes, zzU8(g.pre+"code"+zzItoa(i)))
+			a.codes = append(a.codes, g.dU8(g.pre+"code"+zzItoa(i)))
 		}
 	case 10:
 		a.hflags = 2
-		a.pid = zzU16(g.pre + "pid")
+		a.pid = g.dU16(g.pre + "pid")
 		a.props = g.props("", 10, sh.mask, sh.nUser, 0)
 		for i := 0; i < sh.nList; i++ {
 			fl := sh.slen
@@ -447,7 +483,7 @@ func zzGen2(sh zzShape, pre string) *zzAbs {
 		}
 	case 12, 13:
 	case 14, 15:
-		a.reason = zzU8(g.pre + "reason")
+		a.reason = g.dU8(g.pre + "reason")
 		a.props = g.props("", sh.typ, sh.mask, sh.nUser, 0)
 	}
 	if sh.form >= 1 {
